@@ -2757,6 +2757,7 @@ class FuncIsinstanceMonad(FuncMonad):
                 subclasses.add(cls)
                 subclasses.update(cls._subclasses_)
         if entity in subclasses:
+            if isinstance(obj, ObjectAttrMonad): return obj.nonzero()  # isinstance(None, cls) is False
             return BoolExprMonad(['EQ', ['VALUE', 1], ['VALUE', 1]], nullable=False)
 
         subclasses.intersection_update(entity._subclasses_)
